@@ -135,6 +135,12 @@ impl Part for C06 {
                 return out;
             }
         };
+        if c.last && !crate::suites::HOOKS {
+            // needs the hook to reach the last sequence numbers; covered by the guard-on variants
+            out.outcome = "skipped-needs-hook".into();
+            out.nontrivial = false;
+            return out;
+        }
         let base: u128 = if c.last { (u64::MAX - 2) as u128 } else { 0 };
         let mut msgs: Vec<Msg> = vec![];
         for i in 0..(if c.last { 3usize } else { 5 }) {
